@@ -6,6 +6,10 @@ import (
 	"os"
 	"runtime"
 
+	"github.com/alttpo/snes/emulator"
+	"github.com/alttpo/snes/emulator/cpualt"
+	"github.com/alttpo/snes/emulator/memory"
+
 	"verif/internal/mem"
 	"verif/internal/ref"
 	"verif/internal/vf"
@@ -555,7 +559,98 @@ func C08(r *vf.Run) {
 			w.cells["program-steps"] += local
 		})
 	}
+	if r.Phase("console-devices") {
+		// the whole bus mapped by the library's own devices: the console as CreateEmulator wires it (RAM
+		// devices and the register-window device), the holes filled with one more RAM. Every address of the
+		// register window is read, written (several values, 8 and 16 bits wide) and read-modified-written
+		// by both interpreters: devices are code too, and a device may not fail on a value it is handed
+		type opT struct {
+			name string
+			code byte
+		}
+		ops := []opT{{"lda", 0xAD}, {"sta", 0x8D}, {"stz", 0x9C}, {"stx", 0x8E}, {"sty", 0x8C}, {"inc", 0xEE}, {"dec", 0xCE}, {"tsb", 0x0C}, {"asl", 0x0E}, {"bit", 0x2C}}
+		banks := []byte{0x00, 0x3F, 0x80, 0x6F}
+		r.Parallel(min(ncpu, 8), len(banks)*2, func(wi, idx int) {
+			bank, useAlt := banks[idx/2], idx%2 == 1
+			g := r.Rand("console").Fork(uint64(idx))
+			sys := new(emulator.System)
+			if err := sys.CreateEmulator(); err != nil {
+				r.Fail("create-emulator", err.Error(), nil)
+				return
+			}
+			filler := make([]byte, 1<<24)
+			holeStart := int64(-1)
+			for blk := int64(0); blk <= 1<<20; blk++ {
+				served := false
+				if blk < 1<<20 {
+					served = vf.Try(func() { sys.Bus.EaRead(uint32(blk) << 4) }) == nil
+				}
+				if !served && holeStart < 0 && blk < 1<<20 {
+					holeStart = blk
+				}
+				if (served || blk == 1<<20) && holeStart >= 0 {
+					if err := sys.Bus.Attach(memory.NewRAM(filler, 0), "fill", uint32(holeStart)<<4, uint32(blk)<<4-1); err != nil {
+						panic(err)
+					}
+					holeStart = -1
+				}
+			}
+			var alt *cpualt.CPU
+			if useAlt {
+				// the other interpreter over the same devices
+				alt = new(cpualt.CPU)
+				alt.Init()
+				alt.Bus.AttachReader(0, 0xFFFFFF, func(a uint32) uint8 { return sys.Bus.EaRead(a) })
+				alt.Bus.AttachWriter(0, 0xFFFFFF, func(a uint32, v uint8) { sys.Bus.EaWrite(a, v) })
+			}
+			var n int64
+			for off := uint32(0x2000); off < 0x8000 && !r.TooMany(); off++ {
+				for _, op := range ops {
+					for _, val := range []uint16{0x0000, 0x0001, 0x8000, 0x00FF, 0xFFFF} {
+						for m8 := 0; m8 < 2; m8++ {
+							// program in work RAM: <op> $off with the data bank pointing at the window
+							pc := uint32(0x7E1000)
+							sys.Bus.EaWrite(pc, op.code)
+							sys.Bus.EaWrite(pc+1, byte(off))
+							sys.Bus.EaWrite(pc+2, byte(off>>8))
+							var pan interface{}
+							if useAlt {
+								c := alt
+								c.RK, c.PC, c.RDBR = 0x7E, 0x1000, bank
+								c.E, c.M, c.X = 0, byte(m8), byte(m8)
+								c.RA, c.RAl, c.RAh = val, byte(val), byte(val>>8)
+								c.RX, c.RXl, c.RY, c.RYl = val, byte(val), val, byte(val)
+								c.Stopped = false
+								pan = vf.Try(func() { c.Step() })
+							} else {
+								c := &sys.CPU
+								c.RK, c.PC, c.RDBR = 0x7E, 0x1000, bank
+								c.E, c.M, c.X = 0, byte(m8), byte(m8)
+								c.RA, c.RAl, c.RAh = val, byte(val), byte(val>>8)
+								c.RX, c.RXl, c.RY, c.RYl = val, byte(val), val, byte(val)
+								c.Stopped = false
+								pan = vf.Try(func() { c.Step() })
+							}
+							n++
+							if pan != nil {
+								who := "cpu65c816"
+								if useAlt {
+									who = "cpualt"
+								}
+								r.Fail(fmt.Sprintf("console-device-fails:%s:%s", who, op.name), fmt.Sprintf("%s: %s $%02x:%04x (register window) with A/X/Y=$%04x, %d-bit: Step failed with the whole bus mapped by the library's devices: %v", who, op.name, bank, off, val, 16-8*m8, pan), nil)
+							}
+						}
+					}
+				}
+			}
+			_ = g
+			r.Eval(n)
+			r.CellN(fmt.Sprintf("console-devices:bank%02x:alt=%v", bank, useAlt), n)
+		})
+	}
 	if r.OnlyPhase == "" {
+		r.RequireSub("console-devices:bank00:alt=false")
+		r.RequireSub("console-devices:bank00:alt=true")
 		for _, c := range []string{"model:ea24-overflow:abs,X", "model:ea24-overflow:abs,Y", "model:ea24-overflow:long,X", "model:ea24-overflow:(dp),Y", "model:ea24-overflow:[dp],Y",
 			"model:ea24-overflow:(sr,S),Y", "model:data24-wrap:abs", "model:data24-wrap:long", "model:data24-wrap:(dp)", "model:data24-wrap:[dp]", "touched:$ffffff"} {
 			r.Require(c)
